@@ -605,6 +605,7 @@ func init() {
 		"strings.LastIndexByte":                stubLastIndexByte,
 		"(github.com/ipfs/go-cid.Cid).String": stubCidString,
 		"github.com/ipfs/go-cid.Decode":       stubCidDecode,
+		"github.com/sourcenetwork/defradb/internal/core/block.marshalNode": stubMarshalNode,
 		"sort.Slice":       stubSortSlice,
 		"sort.SliceStable": stubSortSlice,
 		"reflect.DeepEqual": func(e *Engine, fn *ssa.Function, args []Val) Val {
@@ -1180,4 +1181,90 @@ func stubCidDecode(e *Engine, fn *ssa.Function, args []Val) Val {
 		}
 	}
 	return e.callBody(fn, args, nil)
+}
+
+// ---- injective codec model ----
+// marshalNode (dag-cbor through bindnode reflection) is modelled as a canonical, injective serialisation of
+// the Go value: type-tagged and length-prefixed, so two values have equal bytes iff they are structurally
+// equal. Assumed: the real codec is injective on Blocks / Signatures / Encryption blocks.
+
+func (e *Engine) canonSerialize(v Val, out *[]Val, depth int) {
+	if depth > 40 {
+		unsup("canonical serialisation: too deep")
+	}
+	tag := func(b byte) { *out = append(*out, Int{W: 8, C: uint64(b)}) }
+	num := func(n int) {
+		for i := 3; i >= 0; i-- {
+			*out = append(*out, Int{W: 8, C: uint64(n>>(8*uint(i))) & 0xff})
+		}
+	}
+	switch x := v.(type) {
+	case nil:
+		tag('0')
+	case Int:
+		tag('I')
+		tag(byte(x.W))
+		*out = append(*out, e.beBytes(x, x.W/8)...)
+	case Bool:
+		tag('B')
+		if x.sym() {
+			*out = append(*out, Int{W: 8, T: "(ite " + x.T + " #x01 #x00)"})
+		} else if x.C {
+			tag(1)
+		} else {
+			tag(0)
+		}
+	case Flt:
+		tag('F')
+		bits := stubFloatBits(e, nil, []Val{x}).(Int)
+		*out = append(*out, e.beBytes(bits, x.W/8)...)
+	case Str:
+		tag('S')
+		num(len(x.B))
+		*out = append(*out, x.B...)
+	case Agg:
+		tag('A')
+		num(len(x.F))
+		for _, f := range x.F {
+			e.canonSerialize(f, out, depth+1)
+		}
+	case Ptr:
+		if x.O == nil {
+			tag('n')
+			return
+		}
+		tag('P')
+		e.canonSerialize(e.load(x), out, depth+1)
+	case Slice:
+		if x.O == nil {
+			tag('z')
+			return
+		}
+		tag('L')
+		num(x.Len)
+		for _, c := range e.cells(x) {
+			e.canonSerialize(c, out, depth+1)
+		}
+	case Iface:
+		if x.T == nil {
+			tag('i')
+			return
+		}
+		tag('T')
+		ts := x.T.String()
+		num(len(ts))
+		for i := 0; i < len(ts); i++ {
+			tag(ts[i])
+		}
+		e.canonSerialize(x.V, out, depth+1)
+	default:
+		unsup("canonical serialisation of %T", v)
+	}
+}
+
+func stubMarshalNode(e *Engine, fn *ssa.Function, args []Val) Val {
+	var out []Val
+	e.canonSerialize(args[0], &out, 0)
+	a := Agg{F: out}
+	return Tuple{Slice{O: e.newObj(a), Len: len(out), Cap: len(out)}, Iface{}}
 }
